@@ -62,6 +62,15 @@ def do_set_value(b, e):
         sym = cat(*[b.syms[n] for n in e["names"]])
         val = cat(*[build.param_value({"value": v}) for v in e["values"]])
         return b.stage.set_value(sym, val)
+    if e.get("inplace"):
+        # the caller's own buffer, refreshed in place and handed over again (the same object every time)
+        val = np.array(e["value"], dtype=float)
+        bufs = b.__dict__.setdefault("_value_buffers", {})
+        buf = bufs.get(e["name"])
+        if buf is None or buf.shape != val.shape:
+            buf = bufs[e["name"]] = np.zeros(val.shape)
+        buf[...] = val
+        return b.stage.set_value(b.syms[e["name"]], buf)
     return b.stage.set_value(b.syms[e["name"]], build.param_value({"value": e["value"]}))
 
 
@@ -109,7 +118,7 @@ def gen_cases(rng, tier):
             if rng.random() < 0.3:
                 val = rng.choice(prev)           # back to a value the parameter had before (v1 -> v2 -> v1)
             events.append({"phase": rng.choice(["pre", "post", "post", "post_solve"]), "name": p["name"],
-                           "value": val})
+                           "value": val, "inplace": rng.random() < 0.35})
         # interleave guess updates: they must not disturb any parameter value
         dec = list(spec["controls"]) or [s for s in spec["states"] if not s.get("quad") and
                                          spec["method"]["cls"] != "DC"]   # DC state guesses are C10's subject
